@@ -1100,6 +1100,38 @@ def run(ctx: Any, prog: Program) -> None:
     # the fix-up pass of parse_kv2 replaces a reference only when the id is defined in the file; a dangling id has to stay a stub *with that
     # id*.  So wherever the element parser queues a fix-up (`fixups.append((.., uuid, ..))`) the same block also stores
     # `StubElement.stub(uuid)` (directly or through `stubs.setdefault(uuid, ...)`) - in the array position and in the scalar position alike.
+    # ---- X15: the word `element` is a reference marker only where elements are expected -----------------------------------------------------
+    # `"name" "element_array" [ element "<uuid>", ... ]`: the bare word announces a reference.  In an array of any other type the same text is
+    # an ordinary value (a string array may hold the string "element"), so the test for the word sits under the test for the ELEMENT type.
+    ctx.rule('C14.X15', 'KV2 reader: `element` is treated as a reference marker only under the ELEMENT type test', floor=1)
+    pk2 = dmx.func('Element._parse_kv2_element')
+    n15 = 0
+    for cmp_ in [c for c in ast.walk(pk2) if isinstance(c, ast.Compare) and len(c.ops) == 1 and isinstance(c.ops[0], ast.Eq) and isinstance(c.comparators[0], ast.Constant) and c.comparators[0].value == 'element']:
+        n15 += 1
+        under = False
+        ch15: ast.AST = cmp_
+        an15 = dmx.parents.get(cmp_)
+        while an15 is not None and an15 is not pk2:
+            if isinstance(an15, ast.If) and ch15 is not an15.test and 'ValueType.ELEMENT' in U(an15.test) and any(ch15 is b or any(ch15 is y for y in ast.walk(b)) for b in an15.body):
+                under = True
+            if isinstance(an15, ast.BoolOp) and isinstance(an15.op, ast.And) and any('ValueType.ELEMENT' in U(v) for v in an15.values if v is not ch15):
+                under = True
+            if isinstance(an15, ast.If) and ch15 is an15.test and 'ValueType.ELEMENT' in U(an15.test):
+                under = True
+            ch15, an15 = an15, dmx.parents.get(an15)
+        ctx.check('C14.X15', under, dmx, cmp_, f'_parse_kv2_element tests `{U(cmp_)}` for every array type: a string array that contains the value "element" is read as a reference, the parser then demands a UUID string '
+                  'and fails on the following `,` or `]` - text the writer produced cannot be read back', func='Element._parse_kv2_element', text='`element` marker under the ELEMENT type test')
+    ctx.shape('C14.X15', n15 >= 1, dmx, pk2, 'no comparison with the word `element` found in _parse_kv2_element', func='Element._parse_kv2_element', text='`element` marker test')
+    # ---- X16: the end of the header comment is the FIRST `-->` -------------------------------------------------------------------------------
+    # Element.parse reads the file in blocks until it has seen the `-->` that closes the `<!-- dmx encoding ... -->` line; the block read last
+    # also holds the beginning of the payload.  Searching from the right finds a `-->` inside the data (a string, a type name) instead.
+    ctx.rule('C14.X16', 'Element.parse locates the end of the header comment by its first occurrence', floor=1)
+    ep16 = dmx.func('Element.parse')
+    finds = [c for c in ast.walk(ep16) if isinstance(c, ast.Call) and isinstance(c.func, ast.Attribute) and c.func.attr in ('find', 'rfind', 'index', 'rindex') and c.args and isinstance(c.args[0], ast.Constant) and c.args[0].value == b'-->']
+    ctx.shape('C14.X16', len(finds) >= 1, dmx, ep16, 'search for the `-->` terminator not found in Element.parse', func='Element.parse', text='header terminator search')
+    for f16 in finds:
+        ctx.check('C14.X16', f16.func.attr in ('find', 'index'), dmx, f16, f'Element.parse looks for the end of the header with `{U(f16)}`: the block holds the start of the payload too, and the LAST `-->` in it may be part of '
+                  'the data (a string or type name containing `-->`), so parsing resumes in the middle of the payload', func='Element.parse', text='header terminator: first occurrence')
     ctx.rule('C14.X12', 'KV2 reader: every queued reference is given a stub carrying its id, in array and scalar position', floor=2)
     pk = dmx.func('Element._parse_kv2_element')
     for c in [x for x in ast.walk(pk) if isinstance(x, ast.Call) and isinstance(x.func, ast.Attribute) and x.func.attr == 'append' and isinstance(x.func.value, ast.Name) and x.func.value.id in [a.arg for a in pk.args.args]
@@ -1228,6 +1260,7 @@ def run(ctx: Any, prog: Program) -> None:
 
 
 MUTANTS: List[Dict[str, Any]] = [
+    {'id': 'header_end_found_from_the_right', 'file': 'dmx.py', 'find': "            header_len = header.find(b'-->', -260)", 'replace': "            header_len = header.rfind(b'-->')", 'expect': 'C14.X16'},
     {'id': 'element_indexes_read_in_one_block', 'file': 'dmx.py', 'find': "                    for _ in array_iter:\n                        [ind] = binformat.struct_read('<i', file)\n", 'replace': "                    elem_count = 1 if array_size is None else array_size\n                    for ind in binformat.struct_read(f'<{elem_count}i', file):\n", 'expect': 'C14.X3'},
     {'id': 'string_array_joined_with_terminator', 'file': 'dmx.py', 'find': "                        for text in attr.iter_string():\n                            file.write(text.encode(encoding) + b'\\0')\n", 'replace': "                        file.write(('\\0'.join(attr.iter_string()) + '\\0').encode(encoding))\n", 'expect': 'C14.X3'},
     {'id': 'kv2_name_line_only_when_named', 'file': 'dmx.py', 'find': "        file.write(b'%b\"name\" \"string\" \"%b\"\\r\\n' % (indent_child, escape_text(self.name).encode(encoding)))", 'replace': "        if self.name:\n            file.write(b'%b\"name\" \"string\" \"%b\"\\r\\n' % (indent_child, escape_text(self.name).encode(encoding)))", 'expect': 'C14.X14'},
